@@ -486,6 +486,30 @@ def translate(repo):
                                  r"ll = self\.likelihood_worker\((\d)\)", "test_worker_one", "row"))
     out.append("End Kernel.")
     out.append("")
+    # uniform entry points: Coq's section discharge keeps only the parameters a definition uses (which depends on the source);
+    # these wrappers always take all seven
+    PARAMS = ["p_n_times", "p_n_linear", "p_fixed_K_prior", "p_sigma_K0", "p_P0", "p_max_K", "p_t0"]
+    text = "\n".join(out)
+    bodies = {}
+    for nm in ("get_ivar", "make_AAinv", "make_bBBinv", "likelihood_worker", "marginal_one", "posterior_one", "test_worker_one"):
+        m = re.search(rf"Definition {nm} .*?\n(.*?)(?=\nDefinition |\nEnd Kernel)", text, flags=re.S)
+        bodies[nm] = m.group(0) if m else ""
+    def uses(nm, seen=None):
+        seen = seen or set()
+        if nm in seen:
+            return set()
+        seen.add(nm)
+        u = {q for q in PARAMS if re.search(rf"\b{q}\b", bodies[nm])}
+        for other in bodies:
+            if other != nm and re.search(rf"\b{other}\b", bodies[nm]):
+                u |= uses(other, seen)
+        return u
+    for nm in ("marginal_one", "posterior_one", "test_worker_one"):
+        u = uses(nm)
+        args = " ".join(q for q in PARAMS if q in u)
+        out.append(f"Definition k_{nm} {{F}} (fo : fops F) (orc : oracles F) (p_n_times p_n_linear p_fixed_K_prior : Z) (p_sigma_K0 p_P0 p_max_K p_t0 : F)")
+        out.append(f"  (row : arr1 F) (s : kst) : kst * F := {nm} fo orc {args} row s.")
+    out.append("")
     # slots
     off_term, slot_term, p0_unit, p0_days = translate_slots(lines)
     out.append("(* ---- __init__: where each prior mean / variance is stored (index into mu / Lambda) ---- *)")
